@@ -345,6 +345,10 @@ func CmpVals(a interface{}, op string, b interface{}) (bool, error) {
 		}
 		return false, fmt.Errorf("model: comparison with NULL is outside the modelled domain")
 	}
+	if (op == "=" || op == "!=") && fmt.Sprintf("%T", a) != fmt.Sprintf("%T", b) {
+		// values of different types are never equal, whatever they look like when printed
+		return op == "!=", nil
+	}
 	var c int
 	switch x := a.(type) {
 	case int64:
